@@ -140,15 +140,15 @@ Theorem C01_IEEE1905_len_only : forall v v', wf v -> wf v' -> bytes_ok (arr v) -
 Proof. exact IEEE1905_len_only. Qed.
 Print Assumptions C01_IEEE1905_len_only.
 
-Theorem C01_IP4_getters_safe_partial : forall v, wf v -> bytes_ok (arr v) ->
-  IP4_IsValid v = Ok true -> getters_ok IP4_findings_C01 IP4_getters v.
+Theorem C01_IP4_getters_safe : forall v, wf v -> bytes_ok (arr v) ->
+  IP4_IsValid v = Ok true -> getters_ok [] IP4_getters v.
 Proof. exact IP4_safe. Qed.
-Print Assumptions C01_IP4_getters_safe_partial.
-Theorem C01_IP4_len_only_partial : forall v v', wf v -> wf v' -> bytes_ok (arr v) -> bytes_ok (arr v') ->
+Print Assumptions C01_IP4_getters_safe.
+Theorem C01_IP4_len_only : forall v v', wf v -> wf v' -> bytes_ok (arr v) -> bytes_ok (arr v') ->
   IP4_IsValid v = Ok true -> IP4_IsValid v' = Ok true -> view v = view v' ->
-  getters_len_only IP4_findings_C02 IP4_getters IP4_specs v v'.
+  getters_len_only [] IP4_getters IP4_specs v v'.
 Proof. exact IP4_len_only. Qed.
-Print Assumptions C01_IP4_len_only_partial.
+Print Assumptions C01_IP4_len_only.
 
 Theorem C01_IP6_getters_safe : forall v, wf v -> bytes_ok (arr v) ->
   IP6_IsValid v = Ok true -> getters_ok [] IP6_getters v.
@@ -180,15 +180,15 @@ Theorem C01_SNAP_len_only : forall v v', wf v -> wf v' -> bytes_ok (arr v) -> by
 Proof. exact SNAP_len_only. Qed.
 Print Assumptions C01_SNAP_len_only.
 
-Theorem C01_TCP_getters_safe_partial : forall v, wf v -> bytes_ok (arr v) ->
-  TCP_IsValid v = Ok true -> getters_ok TCP_findings_C01 TCP_getters v.
+Theorem C01_TCP_getters_safe : forall v, wf v -> bytes_ok (arr v) ->
+  TCP_IsValid v = Ok true -> getters_ok [] TCP_getters v.
 Proof. exact TCP_safe. Qed.
-Print Assumptions C01_TCP_getters_safe_partial.
-Theorem C01_TCP_len_only_partial : forall v v', wf v -> wf v' -> bytes_ok (arr v) -> bytes_ok (arr v') ->
+Print Assumptions C01_TCP_getters_safe.
+Theorem C01_TCP_len_only : forall v v', wf v -> wf v' -> bytes_ok (arr v) -> bytes_ok (arr v') ->
   TCP_IsValid v = Ok true -> TCP_IsValid v' = Ok true -> view v = view v' ->
-  getters_len_only TCP_findings_C02 TCP_getters TCP_specs v v'.
+  getters_len_only [] TCP_getters TCP_specs v v'.
 Proof. exact TCP_len_only. Qed.
-Print Assumptions C01_TCP_len_only_partial.
+Print Assumptions C01_TCP_len_only.
 
 Theorem C01_UDP_getters_safe : forall v, wf v -> bytes_ok (arr v) ->
   UDP_IsValid v = Ok true -> getters_ok [] UDP_getters v.
@@ -210,11 +210,10 @@ Theorem C01_U880a_len_only : forall v v', wf v -> wf v' -> bytes_ok (arr v) -> b
 Proof. exact U880a_len_only. Qed.
 Print Assumptions C01_U880a_len_only.
 
-(* ---- refutations of the full statement on the real code's model (DESIGN section 11 #3, #8) ---- *)
-Theorem C01_IP4_getters_safe_refuted :
-  exists v, wf v /\ bytes_ok (arr v) /\ IP4_IsValid v = Ok true /\ IP4_Payload v = Panic.
-Proof. exact IP4_payload_refuted. Qed.
-Print Assumptions C01_IP4_getters_safe_refuted.
+(* ---- the remaining refutation: Ether.Payload() of a header-only frame (DESIGN section 11 #8, recorded finding
+   view-ether-payload-spare-capacity; documented encoder idiom, not repaired).  The other classes found by this
+   check (IP4 #3 #4, TCP #5, LLC #6, LLDP #7, Ether.SrcIP/DstIP #8, ICMP4Redirect / RS #10) were repaired in /repo
+   and their theorems above are now full. ---- *)
 Theorem C01_Ether_payload_inside_refuted :
   exists v, wf v /\ bytes_ok (arr v) /\ Ether_IsValid v = Ok true /\ ~ getter_ok v Ether_Payload.
 Proof. exact Ether_payload_refuted. Qed.
@@ -224,22 +223,19 @@ Theorem C01_Ether_payload_len_only_refuted :
                Ether_Payload v <> Ether_Payload v'.
 Proof. exact Ether_payload_capacity_refuted. Qed.
 Print Assumptions C01_Ether_payload_len_only_refuted.
-Theorem C01_Ether_srcip_dstip_refuted :
-  exists v, wf v /\ bytes_ok (arr v) /\ Ether_IsValid v = Ok true /\ Ether_SrcIP v = Panic /\ Ether_DstIP v = Panic.
-Proof. exact Ether_srcip_refuted. Qed.
-Print Assumptions C01_Ether_srcip_dstip_refuted.
 
-(* ---- non-vacuity: valid views outside every recorded class ---- *)
+(* ---- non-vacuity: valid views with non-trivial content ---- *)
 Example C01_IP4_nonvacuous : wf ex_ip4 /\ bytes_ok (arr ex_ip4) /\ IP4_IsValid ex_ip4 = Ok true /\
-  forallb (fun ng => negb (known_of IP4_findings_C02 (fst ng) ex_ip4)) IP4_getters = true.
+  IP4_Fragment ex_ip4 = Ok (VN 8191) /\ IP4_Payload ex_ip4 = Ok (VR 24 4).
 Proof. exact IP4_valid_ex. Qed.
 Print Assumptions C01_IP4_nonvacuous.
 Example C01_Ether_nonvacuous : wf ex_ether /\ bytes_ok (arr ex_ether) /\ Ether_IsValid ex_ether = Ok true /\
-  forallb (fun ng => negb (known_of Ether_findings (fst ng) ex_ether)) Ether_getters = true.
+  forallb (fun ng => negb (known_of Ether_findings (fst ng) ex_ether)) Ether_getters = true /\
+  Ether_SrcIP ex_ether = Ok (VX [10;0;0;1]).
 Proof. exact Ether_valid_ex. Qed.
 Print Assumptions C01_Ether_nonvacuous.
 Example C01_TCP_nonvacuous : wf ex_tcp /\ bytes_ok (arr ex_tcp) /\ TCP_IsValid ex_tcp = Ok true /\
-  forallb (fun ng => negb (known_of TCP_findings_C02 (fst ng) ex_tcp)) TCP_getters = true.
+  TCP_HeaderLen ex_tcp = Ok (VN 24) /\ TCP_Payload ex_tcp = Ok (VR 24 2).
 Proof. exact TCP_valid_ex. Qed.
 Print Assumptions C01_TCP_nonvacuous.
 Example C01_UDP_nonvacuous : wf ex_udp /\ bytes_ok (arr ex_udp) /\ UDP_IsValid ex_udp = Ok true.
